@@ -94,8 +94,10 @@ def run(tier, seed):
     # (ii) byte offsets
     if tier == "quick":
         offs = list(range(0, header_len + 3)) + list(range(header_len + 3, size + 2, max(1, size // 60))) + [size - 1, size, size + 1]
+    elif os.environ.get("VERIF_C22_ALL_OFFSETS"):
+        offs = list(range(0, size + 2))          # every byte offset: hours, not minutes
     else:
-        offs = list(range(0, size + 2))
+        offs = list(range(0, header_len + 512)) + list(range(header_len + 512, size + 2, max(1, size // 900))) + list(range(max(0, size - 64), size + 2))
     offs = sorted(set(o for o in offs if o >= 0))
     for prev in ("none", "current", "stale"):
         for mode in ("sigxfsz", "efbig"):
@@ -165,7 +167,8 @@ def run(tier, seed):
         shutil.rmtree(dd, ignore_errors=True)
     chk.extra["output_size_bytes"] = size
     chk.extra["byte_offsets_tried"] = len(offs)
-    chk.exhaustive = (tier == "thorough")
+    # exhaustive = every syscall boundary of the traced families AND every byte offset
+    chk.exhaustive = (tier == "thorough" and len(offs) == size + 2)
     chk.extra["syscall_families"] = SYSCALLS
     chk.sample({"fault": "SIGKILL at entry of write call k=3 prev=stale", "then": "lalrpop g.lalrpop (non-forced)", "expect": "g.rs byte-identical to a clean generation"})
     chk.rule = "fault point = (syscall family, k-th call) killed with SIGKILL via strace injection, or (byte offset b, SIGXFSZ | EFBIG) via RLIMIT_FSIZE, x previous-output state {none, current(forced run), stale} x {--report or not}; after each, a non-forced rebuild must reproduce the clean bytes; non-trivial = the fault actually hit (the faulted run did not exit 0); distinct by fault description"
